@@ -11,7 +11,7 @@ rsync -a --delete --exclude target /verif/harness/ "$sc/harness/"
 cp /verif/known_findings.json "$sc/" 2>/dev/null || true
 rm -rf "$sc/known"; cp -r /verif/known "$sc/known" 2>/dev/null || true
 sed -i "s#\"/repo/#\"$wt/#g" "$sc/harness/checks/Cargo.toml"
-sed -i "s#/verif/target#$sc/target#" "$sc/harness/.cargo/config.toml"
+# (.cargo/config.toml has target-dir = "../target", i.e. $sc/target)
 bin="$(echo "$id" | tr 'A-Z' 'a-z')"
 cd "$sc/harness"
 export CARGO_NET_OFFLINE=true
